@@ -47,7 +47,13 @@ Inductive case :=
 | CCallback (tab : list (str * str)) (cfg : config) (rq : cb_request) (rd : redeem_reply) (o : cb_obs)
 | CStart (rq : start_request) (o : st_obs)
 | CHist (tab : list (str * str)) (cfg : config) (steps : list (event * hobs))
-| CBrowser (tab : list (str * str)) (cfg : config) (steps : list (bevent * bobs)).
+| CBrowser (tab : list (str * str)) (cfg : config) (steps : list (bevent * bobs))
+(* 2-3 /sign_in requests in flight at once against one provider; [rr]/[vr] of each request are
+   the IdP's answers FOR THAT SESSION'S refresh / access token (the IdP answers by token);
+   per-request observations carry no call log, [calls] is the IdP's log for the whole batch *)
+| CBatch (tab : list (str * str)) (cfg : config) (p : pkind)
+         (reqs : list (si_request * cookie * refresh_reply * validate_reply * si_obs))
+         (calls : list idp_call).
 
 (* ---- comparison on projected observables ---- *)
 (* a deadline written by the code during the request (now + d, truncated to the second) may
@@ -106,6 +112,7 @@ Definition validate_ok_reply (p : pkind) (vr : validate_reply) : bool :=
   match vr, p with
   | VStatus st _ _, Google => N.eqb st 200
   | VStatus st j a, Okta => N.eqb st 200 && j && a
+  | VStatus st j _, Cognito => N.eqb st 200 && j
   | VReset, _ => false
   end.
 
@@ -262,6 +269,58 @@ Fixpoint bhist_judge (cfg : config) (w : bworld) (mj : option (str * bool)) (os 
       (a && a', h && h')
   end.
 
+(* ---- concurrent batches ---- *)
+Definition with_calls (o : si_obs) (calls : list idp_call) : si_obs :=
+  mkSO (so_status o) (so_has_code o) (so_code o) (so_ops o) calls (so_leak o) (so_page o).
+
+Definition count_call (x : idp_call) (l : list idp_call) : nat := length (filter (idp_call_eqb x) l).
+
+Definition batch_req := (si_request * cookie * refresh_reply * validate_reply * si_obs)%type.
+
+Definition solo_of (cfg : config) (p : pkind) (b : batch_req) : response :=
+  let '(rq, c, rr, vr, _) := b in sign_in_route lower cfg p 0 rq c rr vr.
+
+(* request [b] may have been a coalesced refresh follower: another request of the batch has a
+   refresh due with the same non-empty refresh token and the IdP's answer for it is positive *)
+Definition may_follow (cfg : config) (p : pkind) (i : nat) (b : batch_req) (all : list batch_req) : bool :=
+  let '(rq, c, rr, _, _) := b in
+  match open_sealed KCookie c with
+  | Some s =>
+      refresh_ok_reply rr &&
+      existsb (fun jb => let '(j, (_, c', _, _, _)) := jb in
+                 negb (Nat.eqb i j) &&
+                 match open_sealed KCookie c' with
+                 | Some s' => str_eqb (s_rtok s) (s_rtok s') && (s_refresh s' <? 0) && (0 <=? s_lifetime s')
+                 | None => false
+                 end)
+              (combine (seq 0 (length all)) all)
+  | None => false
+  end.
+
+Definition batch_agree_one (cfg : config) (p : pkind) (all : list batch_req) (ib : nat * batch_req) : bool :=
+  let '(i, b) := ib in
+  let '(rq, c, rr, vr, o) := b in
+  let o' := with_calls o [] in
+  si_agree (with_calls (si_obs_of (solo_of cfg p b)) []) o' ||
+  (may_follow cfg p i b all &&
+   match sign_in_route_follower lower cfg 0 rq c with
+   | Some r => si_agree (with_calls (si_obs_of r) []) o'
+   | None => false
+   end).
+
+(* the batch log: only calls some request would make on its own, none more often than there are
+   such requests, and every key some request needs asked at least once *)
+Definition batch_calls_ok (cfg : config) (p : pkind) (all : list batch_req) (calls : list idp_call) : bool :=
+  let solo_calls := flat_map (fun b => r_calls (solo_of cfg p b)) all in
+  forallb (fun x => Nat.leb 1 (count_call x solo_calls) && Nat.leb (count_call x calls) (count_call x solo_calls)) calls &&
+  forallb (fun x => mem_call x calls) solo_calls.
+
+(* monitor: every response of the batch satisfies the sign-in clause against the batch's IdP log:
+   code= ==> the IdP was asked about THAT session's token in this batch and its answer for
+   that token (rr / vr are by token) was positive, ... *)
+Definition batch_holds (cfg : config) (p : pkind) (all : list batch_req) (calls : list idp_call) : bool :=
+  forallb (fun b => let '(rq, c, rr, vr, o) := b in si_holds cfg p 0 rq c rr vr (with_calls o calls)) all.
+
 End Spec.
 
 Definition judge (c : case) : N :=
@@ -288,6 +347,11 @@ Definition judge (c : case) : N :=
       let lower := lower_tab tab in
       let '(a, h) := bhist_judge lower cfg (bworld0 0) None None steps in
       code (negb a) (negb (rule_guard lower cfg) || h) 0
+  | CBatch tab cfg p reqs calls =>
+      let lower := lower_tab tab in
+      let a := forallb (batch_agree_one lower cfg p reqs) (combine (seq 0 (length reqs)) reqs) &&
+               batch_calls_ok lower cfg p reqs calls in
+      code (negb a) (negb (rule_guard lower cfg) || batch_holds lower cfg p reqs calls) 0
   end.
 
 (* classes for the evidence histogram: which branch of the flow the case reached *)
@@ -307,6 +371,8 @@ Definition classify (c : case) : N :=
   | CCallback _ _ _ _ o => (1000 + co_status o)%N
   | CStart _ o => (2000 + to_status o)%N
   | CHist _ _ steps => (3000 + N.of_nat (length steps))%N
+  | CBatch _ _ _ reqs calls =>
+      (5000 + 10 * N.of_nat (length (filter (fun b => so_has_code (snd b)) reqs)) + N.of_nat (length calls))%N
   | CBrowser _ _ steps =>
       (4000 + N.of_nat (length (filter (fun x => match snd x with BoCb o => is_some (co_saved (bc_obs o)) | _ => false end) steps)))%N
   end.
